@@ -153,7 +153,7 @@ theorem filterMap_singleton {f : α → Option β} {l : List α} {a : β} (h : l
     | none =>
       rw [hv] at h
       obtain ⟨x, hx, hfx⟩ := ih h
-      exact ⟨x, by simp [List.filter_cons, hv, hx], hfx⟩
+      exact ⟨x, by simp [hv, hx], hfx⟩
     | some bb =>
       rw [hv] at h
       simp only [List.cons.injEq] at h
@@ -163,7 +163,7 @@ theorem filterMap_singleton {f : α → Option β} {l : List α} {a : β} (h : l
         intro a ha
         have := List.filterMap_eq_nil_iff.mp h.2 a ha
         simp [this]
-      simp [List.filter_cons, hv, this]
+      simp [hv, this]
 
 theorem filterMap_nil {f : α → Option β} {l : List α} (h : l.filterMap f = []) :
     l.filter (fun v => (f v).isSome) = [] := by
